@@ -575,6 +575,11 @@ func (k *Kernel) addProposedHeader(ctx context.Context, s *kState, ph tmconsensu
 				)
 			}
 
+			// The committing view's precommits grew, so its vote summary is out of date.
+			backfillVRV.VoteSummary.SetPrecommitPowers(
+				backfillVRV.ValidatorSet.Validators, backfillVRV.PrecommitProofs,
+			)
+
 			// Also update the committing view.
 			s.MarkCommittingViewUpdated()
 		}
